@@ -11,7 +11,6 @@
 use crate::sim::{self, quiet_config, run_recorded, Ending, FollowSched, Item, Rng};
 use serde::{Deserialize, Serialize};
 use shuttle_engine::scheduler::{Schedule, Scheduler, Task, TaskId};
-use std::cell::RefCell;
 use std::collections::BTreeMap;
 use std::sync::atomic::{AtomicBool, Ordering as StdOrdering};
 use std::sync::{Arc, Mutex};
@@ -285,16 +284,15 @@ pub fn shape_body(shape: &Shape) -> Body {
 // Hit marks (plain thread-local; Shuttle runs all tasks of an execution on the calling OS thread)
 // ---------------------------------------------------------------------------------------------
 
-thread_local! {
-    static MARKS: RefCell<Vec<u32>> = const { RefCell::new(Vec::new()) };
-}
+// process-wide (runs execute on their own short-lived threads, one at a time per worker)
+static MARKS: std::sync::Mutex<Vec<u32>> = std::sync::Mutex::new(Vec::new());
 
 pub fn mark(code: u32) {
-    MARKS.with(|m| m.borrow_mut().push(code));
+    MARKS.lock().unwrap_or_else(|e| e.into_inner()).push(code);
 }
 
 pub fn take_marks() -> Vec<u32> {
-    MARKS.with(|m| std::mem::take(&mut *m.borrow_mut()))
+    std::mem::take(&mut *MARKS.lock().unwrap_or_else(|e| e.into_inner()))
 }
 
 // ---------------------------------------------------------------------------------------------
